@@ -272,6 +272,10 @@ class Runner:
             from sdc11073.provider.periodicreports import PeriodicReportsHandler
             self.periodic = PeriodicReportsHandler(self.mdib, self.world.provider.hosted_services, fixed_interval=1)
             self.world.provider._periodic_reports_handler = self.periodic  # noqa: SLF001  (no thread is started)
+        # the application looks at every transaction result (and may write to what it was handed, see step())
+        from sdc11073 import observableproperties as properties
+        self.last_result = []
+        properties.strongbind(self.mdib, transaction=self._on_transaction)
         L.NET.validator = wire_validator
         self.consumer, _ = self.world.add_consumer(init_mdib=False)
         self.sink = self.world.consumers[0][2].netloc
@@ -290,6 +294,10 @@ class Runner:
         if v not in self.snaps:
             self.snaps[v] = snapshot(self.mdib)
 
+    def _on_transaction(self, result):
+        if result is not None:
+            self.last_result = list(result.all_states())
+
     def step(self, op):
         log0 = len(L.NET.log)
         v0 = self.mdib.mdib_version
@@ -302,6 +310,12 @@ class Runner:
                 raise
         v1 = self.mdib.mdib_version
         self.judge(op, log0, v0, v1)
+        if self.periodic is not None and self.case.get('app_writes', True) and self.last_result:
+            # the application changes its transaction result afterwards: what is kept for the periodic reports is not that
+            from vf.props import c03
+            for i, st_ in enumerate(self.last_result[:3]):
+                c03.nested_write(st_, len(self.kinds) + i, i, min_depth=1)
+            self.last_result = []
         self.judge_store(op)
 
     def judge(self, op, log0, v0, v1):
@@ -580,7 +594,13 @@ def shard_order_dfs(ctx, seed, n, max_schedules):
 
 
 def shard(ctx, which, *args):
-    if which == 'reports':
+    if which == 'slow-subscriber':
+        found, went_on = stalled_delivery()
+        ctx.case({'probe': 'slow-subscriber', 'stall_s': STALL_S}, True, 'slow-subscriber',
+                 classes=('provider-went-on-early' if went_on else 'provider-waited',))
+        for sig, detail in found:
+            ctx.finding(sig, detail, {'probe': 'slow-subscriber'}, 'slow-subscriber')
+    elif which == 'reports':
         R.hyp_campaign(ctx, 'reports', st_reports_case(), lambda c: reports_case(ctx, c), args[0],
                        shrink_s=40 if ctx.tier == 'quick' else 200)
     elif which == 'order':
@@ -590,10 +610,85 @@ def shard(ctx, which, *args):
         shard_order_dfs(ctx, *args)
 
 
+# ------------------------------------------------------------------------------ part: a subscriber that is slow to answer
+STALL_S = 6.5
+
+
+def stalled_delivery():
+    """Asynchronous subscription manager, two subscribers, the first notification to one of them is held back (its peer
+    is slow to answer; the event loop is not blocked).  The committing thread may wait for that delivery as long as it
+    likes - but if it goes on before the delivery has completed (observed for up to STALL_S seconds of real time), the
+    next commit must still not overtake it at that subscriber.  -> (findings, the provider went on early)"""
+    import asyncio
+    import re
+    import time
+
+    from vf.props import c01
+    c01.park_role_workers()
+    L.reset_network()
+    W.quiet_logging()
+    world = W.World(W.fixture('mdib_tns.xml'), async_mgr=True)
+    out = []
+    went_on = False
+    try:
+        world.add_consumer(init_mdib=False)
+        world.add_consumer(init_mdib=False)
+        slow = world.consumers[0][2].netloc
+        released = threading.Event()
+        state = {'stalled': False}
+        mdib = world.mdib
+
+        async def stall(client, _path):
+            if client.netloc == slow and not state['stalled']:
+                state['stalled'] = True
+                while not released.is_set():
+                    await asyncio.sleep(0.02)
+        handle = sorted(s.DescriptorHandle for s in mdib.states.objects if s.is_metric_state
+                        and not s.is_realtime_sample_array_metric_state)[0]
+        pm = mdib.data_model.pm_types
+
+        def commit(on):
+            with mdib.metric_state_transaction() as mgr:
+                mgr.get_state(handle).ActivationState = pm.ComponentActivation.ON if on else pm.ComponentActivation.OFF
+        log0 = len(L.NET.log)
+        L.NET.async_stall = stall
+        t = threading.Thread(target=commit, args=(True,), daemon=True)
+        t.start()
+        t.join(STALL_S)
+        went_on = not t.is_alive()
+        if went_on and state['stalled']:
+            commit(False)  # the provider did not wait for the slow subscriber: here is its next commit
+        released.set()
+        t.join(30)
+        if t.is_alive():
+            raise R.HarnessError('the commit did not return after the held-back delivery was released')
+        if not went_on or not state['stalled']:
+            commit(False)
+
+        def received():
+            # (a request enters the wire log when it is handed over, i.e. after the hold: log order = order of arrival)
+            return [int(v) for e in L.NET.log[log0:] if e.netloc == slow and e.action
+                    and e.action.endswith('EpisodicMetricReport')
+                    for v in re.findall(rb'EpisodicMetricReport[^>]*MdibVersion="([0-9]+)"', e.request)]
+        for _ in range(250):
+            if len(received()) >= 2:  # noqa: PLR2004
+                break
+            time.sleep(0.02)
+        got = received()
+        if any(b < a for a, b in zip(got, got[1:])):
+            out.append((f'{P}/order/version-decreases/slow-subscriber',
+                        f'a subscriber took {STALL_S}s to answer its first notification; it received MdibVersions {got}'))
+    finally:
+        L.NET.async_stall = None
+        world.close()
+    return out, went_on
+
+
 def run(ctx):
     quick = ctx.tier == 'quick'
     jobs = [('reports', 14 if quick else 250)] * 10 + [('order', 10 if quick else 300)] * 4
     jobs += [('order-dfs', ctx.sub_seed('dfs', i) % 2**32, 1 if quick else 6, 60 if quick else 3000) for i in range(2)]
+    jobs.insert(0, ('slow-subscriber',))
     R.run_shards(ctx, __name__, 'shard', jobs)
 
 
@@ -601,6 +696,8 @@ def replay(part, case):
     ctx = R.Ctx(P, 'quick', 0, {})
     if part == 'reports':
         return reports_case(ctx, case)
+    if part == 'slow-subscriber':
+        return stalled_delivery()[0]
     if part == 'order-dfs':
         return run_order(case, default='first')[0]
     return order_case(ctx, case)
